@@ -86,6 +86,7 @@ class CacheModel:
         self.alphabet = [('compile', k) for k in KEYS] + [('purge',)] + [('pass', k) for k in ('k0', 'k3', 'k6')] + \
                         [('pass-extra', k, x) for k in ('k0',) for x in ('flags', 'namespaces', 'custom')] + \
                         [('pass-same', 'k1', 'flags'), ('pass-same', 'k3', 'namespaces'), ('pass-same', 'k4', 'namespaces'), ('pass-same', 'k5', 'custom')] + \
+                        [('pass-after', 'k0', 'purge'), ('pass-after', 'k3', 'fill'), ('pass-copy', 'k6', 'pickle'), ('pass-copy', 'k3', 'deepcopy')] + \
                         [('fill', self.bound - 2), ('fill', self.bound)]
         self.merge = True
 
@@ -94,7 +95,10 @@ class CacheModel:
         lru = collections.OrderedDict()
         fillc = 0
         for a in hist:
-            if a[0] in ('compile', 'pass', 'pass-extra', 'pass-same'):
+            if a[0] == 'pass-after':
+                lru.clear()          # both variants end with purge(); the pass-through itself must not touch the cache
+                continue
+            if a[0] in ('compile', 'pass', 'pass-extra', 'pass-same', 'pass-copy'):
                 k = canon_args(a[1])
                 if a[0] != 'compile':
                     # the compiled object is obtained by compiling first
@@ -140,6 +144,22 @@ class CacheModel:
                     obs.append(('ValueError',))
                 except Exception as e:
                     obs.append(('other', type(e).__name__))
+            elif a[0] == 'pass-after':
+                c = do_compile(sv, a[1])
+                if a[2] == 'purge':
+                    sv.purge()
+                else:
+                    for _ in range(self.bound + 5):
+                        fillc += 1
+                        sv.compile('g%d' % fillc)
+                    sv.purge()
+                before = sv.css_parser._cached_css_compile.cache_info().currsize
+                r = sv.compile(c)
+                obs.append((c, r, before, sv.css_parser._cached_css_compile.cache_info().currsize))
+            elif a[0] == 'pass-copy':
+                c = do_compile(sv, a[1])
+                cl = pickle.loads(pickle.dumps(c)) if a[2] == 'pickle' else copy.deepcopy(c)
+                obs.append((cl, sv.compile(cl), 0, 0))
             elif a[0] == 'pass-same':
                 c = do_compile(sv, a[1])
                 p, ns, fl, cu = args_of(sv, a[1])
@@ -183,6 +203,12 @@ class CacheModel:
                             f'{b[1]} and {a[1]}: arguments equal={same_args}, objects equal={ob == o}'
                     if same_args and hash(ob) != hash(o):
                         return {'kind': 'equal-but-different-hash', 'keys': b[1] + '/' + a[1]}, f'{b[1]} == {a[1]} but hashes differ'
+        if a[0] in ('pass-after', 'pass-copy'):
+            if o[0] is not o[1]:
+                return {'kind': 'pass-through-not-identical', 'when': a[2]}, f'compile(compiled {a[1]}) after {a[2]} returned a different object'
+            if o[2] != o[3]:
+                return {'kind': 'pass-through-touches-cache', 'when': a[2]}, f'compile(compiled {a[1]}) changed the cache size from {o[2]} to {o[3]}'
+            return None
         if a[0] == 'pass' and o[0] is not o[1]:
             return {'kind': 'pass-through-not-identical'}, f'compile(compiled {a[1]}) returned a different object'
         if a[0] == 'pass-same' and o != ('ValueError',):
